@@ -23,9 +23,10 @@ import (
 )
 
 type H struct {
-	r            *hlib.Run
-	rng          *hlib.Rand
-	notedResOnly bool
+	r             *hlib.Run
+	rng           *hlib.Rand
+	notedResOnly  bool
+	notedZlibDict bool
 }
 
 func errWord(err error) string {
@@ -1053,6 +1054,8 @@ func (h *H) writerRuns(n int) {
 
 // ---------------------------------------------------------------- real codecs
 
+const noteZlibDict = "observation (outside the property; the failure is reported): raczlib + CChunkSize + ResourcesData: zlibcut.Cut re-decodes the cut stream without the preset dictionary and fails with 'flate: corrupt input' (findings/C13/zlibcut-preset-dictionary.txt)"
+
 type realCodec struct {
 	name   string
 	mkW    func() rac.CodecWriter
@@ -1169,6 +1172,13 @@ func (c *realCase) run(scratch string, idx int) {
 		if c.failAt == 0 && !(mode == "cchunk" && !rc.canCut) && errWord(err) != "cchunksize-too-small" {
 			// not a C13 violation (the failure is reported), but worth a note: e.g. an
 			// internal self-check of lib/flatecut (property C16) firing
+			if rc.name == "zlib" && mode == "cchunk" && len(c.res) > 0 && strings.HasPrefix(err.Error(), "flate: corrupt input") {
+				// zlibcut.Cut re-decodes the cut stream without the preset dictionary that
+				// raczlib's Compress used: findings/C13/zlibcut-preset-dictionary.txt
+				c.counts = append(c.counts, "real:observation:zlibcut-fails-on-preset-dictionary")
+				c.notes = append(c.notes, noteZlibDict)
+				return
+			}
 			c.counts = append(c.counts, "real:error-without-fault:"+rc.name+":"+strings.ReplaceAll(err.Error(), " ", "_"))
 			c.notes = append(c.notes, "Close fails without an injected fault: "+err.Error()+"\n"+c.describe())
 		}
@@ -1307,6 +1317,12 @@ func (h *H) realRuns(n int) {
 			h.r.Fail(f[0], f[1], f[2])
 		}
 		for _, n := range c.notes {
+			if n == noteZlibDict {
+				if h.notedZlibDict {
+					continue
+				}
+				h.notedZlibDict = true
+			}
 			if len(n) > 3000 {
 				n = n[:3000] + "…"
 			}
